@@ -17,6 +17,7 @@ import sys
 import common
 sys.path.insert(0, os.path.join(common.VERIF, "tx"))
 import evolveentry as txee
+import opentries as txop
 
 # --------------------------------------------------------------------------------------------------
 # operation table.  kinds: chain mps/mpo/mpdm, tree ttns/ttno.
@@ -43,6 +44,7 @@ OPS += [
        "{r} = {a0}.metacopy()\nfor _i in range(len({a0})):\n    {r}[_i] = {a0}[_i].array * 1.5", "MetacopyFill"),
     op("to_complex", "chain", "derive", [S_ANY], "=0", "{r} = {a0}.to_complex()", "ToComplex"),
     op("conj", "chain", "derive", [S_ANY], "=0", "{r} = {a0}.conj()", "Conj"),
+    op("conj_trans", "chain", "derive", [("mpo",)], "=0", "{r} = {a0}.conj_trans()", "ConjTrans", 0.8),
     op("scale_real", "chain", "derive", [S_ANY], "=0", "{r} = {a0}.scale(1.7)", "Scale"),
     op("scale_cplx", "chain", "derive", [S_ANY], "=0", "{r} = {a0}.scale(0.5 + 0.8j)", "Scale"),
     op("mul_float", "chain", "derive", [S_ANY], "=0", "{r} = {a0} * 2.0", "Scale", 0.5),
@@ -346,7 +348,7 @@ def declared_site_sharing(ctx):
     pairs = sorted({(o["world"], o["model"]) for o in OPS if o["cat"] == "derive"})
     body = "; ".join("(%s, %s)" % ("Chain" if w == "chain" else "Tree", m) for w, m in pairs)
     rc, out = ctx.coq_eval("declared", "From Coq Require Import List ZArith.\nImport ListNotations.\nFrom RV Require Import Gen.EvolveEntry Model.Heap.\n"
-                                       "Eval vm_compute in (map (fun wo => if fmem FSite (s_share (sig_of (fst wo) (snd wo))) then 1%%Z else 0%%Z) [%s])." % body)
+                                       "Eval vm_compute in (map (fun wo => if fmem FSite (s_share (gsig_of (fst wo) (snd wo))) then 1%%Z else 0%%Z) [%s])." % body)
     fl = common.parse_Z_list(out) if rc == 0 else None
     if fl is None or len(fl) != len(pairs):
         return {}
@@ -400,9 +402,15 @@ def run(ctx):
         ctx.regen("Gen/EvolveEntry.v", text)
     except Exception as e:
         ctx.notes.append("translator tx/evolveentry.py failed: %r" % (e,))
+    oprows = None
+    try:
+        otext, oprows = txop.main(common.REPO)
+        ctx.regen("Gen/OpEntries.v", otext)
+    except Exception as e:
+        ctx.notes.append("translator tx/opentries.py failed: %r" % (e,))
     # ------------------------------------------------------------------ 2. Coq
     ok_model, mlog = ctx.coq_make(["Model/Heap.vo"])
-    ok_build, log = ctx.coq_make(["Proofs/HeapProofs.vo"])
+    ok_build, log = ctx.coq_make(["Proofs/HeapProofs.vo", "Proofs/HeapGaugeProofs.vo"])
     ok_props = False
     if ok_build:
         ok_props, log = ctx.props("Props/C13.v")
@@ -423,6 +431,11 @@ def run(ctx):
     else:
         ctx.obligations.append({"name": "translator tx/evolveentry.py (%d entry rows, %d compressed_sum call sites)" % (len(tab["rows"]), len(tab["batches"])),
                                 "file": "tx/evolveentry.py", "ok": True, "assumptions": []})
+    if oprows is None:
+        ctx.obligations.append({"name": "translator tx/opentries.py", "file": "tx/opentries.py", "ok": False, "assumptions": None})
+    else:
+        ctx.obligations.append({"name": "translator tx/opentries.py (%d operation rows)" % len(oprows),
+                                "file": "tx/opentries.py", "ok": True, "assumptions": []})
     # which generated rows fail sig_ok (for the report): evaluated in Coq, independent of Props compiling
     bad_rows = []
     rc, out = ctx.coq_eval("sigok", "From Coq Require Import List String ZArith.\nImport ListNotations.\n"
@@ -431,6 +444,26 @@ def run(ctx):
     flags = common.parse_Z_list(out) if rc == 0 else None
     if flags is not None and tab is not None and len(flags) == len(tab["rows"]):
         bad_rows = [tab["rows"][i] for i, f in enumerate(flags) if f == 0]
+    # which covered operations have inadmissible generated rows / disagree with the hand table
+    bad_ops = []
+    rc, out = ctx.coq_eval("opsok", "From Coq Require Import List String ZArith.\nImport ListNotations.\n"
+                                     "From RV Require Import Model.Heap.\n"
+                                     "Eval vm_compute in (flat_map (fun wo => [if gen_ok (fst wo) (snd wo) then 1%Z else 0%Z; "
+                                     "if tables_agree (fst wo) (snd wo) then 1%Z else 0%Z]) covered_ops).\n")
+    oflags = common.parse_Z_list(out) if rc == 0 else None
+    rc, out = ctx.coq_eval("opsnames", "From Coq Require Import List String.\nImport ListNotations.\nFrom RV Require Import Model.Heap.\n"
+                                        "Eval vm_compute in (map (fun wo => map (fun k => fst (fst (fst k))) (op_rows (fst wo) (snd wo))) covered_ops).\n")
+    groups = re.findall(r"\[((?:\s*\"[^\"]*\"(?:%string)?;?)+)\s*\]", out.replace("\n", " ")) if rc == 0 else []
+    if oflags is not None and len(oflags) == 2 * len(groups):
+        for i, g in enumerate(groups):
+            fns = re.findall(r'"([^"]*)"', g)
+            if oflags[2 * i] == 0 or oflags[2 * i + 1] == 0:
+                rows_ = [r for r in (oprows or []) if r["fn"] in fns]
+                bad_ops.append({"methods": sorted(set(fns)), "rows_admissible": bool(oflags[2 * i]), "agrees_with_hand_table": bool(oflags[2 * i + 1]),
+                                "rows": [{"fn": r["fn"], "variant": r["variant"], "param": r["param"], "returns_param": r["ret_in"],
+                                          "share": sorted(r["shares"]),
+                                          "writes": [(w["kind"], w["fields"], w["what"][:60]) for w in r["writes"] if w["kind"] not in ("config_store", "config_share")]}
+                                         for r in rows_]})
     # ------------------------------------------------------------------ 3. observation on the real code
     nprog = {"chain": 300 if quick else 2400, "tree": 130 if quick else 1100}
     programs = []
@@ -534,6 +567,40 @@ def run(ctx):
                     sig_fail.append((p, idx, term, sm))
     elif obs_terms:
         model_ok = False
+    # ------------------------------------------------------------------ aliasing probes
+    # a result that shares a buffer with an operand outside the signature is probed at once: the same program followed
+    # by an in-place operation (library scale(inplace=True), then a raw buffer write) on the result resp. on the operand
+    def mk_mut(world, opname, tgt):
+        o_ = [x for x in OPS if x["world"] == world and x["name"] == opname][0]
+        return {"op": o_["name"], "model": o_["model"], "cat": "mutate", "args": [tgt], "res": None, "target": tgt,
+                "kinds": ["?"], "code": o_["code"].format(t=tgt)}
+    probes = []
+    seen_probe = set()
+    for p, idx, term, sm in sig_fail:
+        st = p["steps"][idx]
+        if st["cat"] != "derive" or not (sm["share"] or sm["cross"]) or len(seen_probe) >= 6:
+            continue
+        k_ = (p["world"], re.sub(r"_(real|imag)(_adaptive)?$", "", st["op"]))
+        if k_ in seen_probe:
+            continue
+        seen_probe.add(k_)
+        partners = sorted({x[1] for x in byid[p["id"]]["steps"][idx].get("result_shares", [])} |
+                          set(byid[p["id"]]["steps"][idx].get("result_is_input") or []))
+        for mut in ("scale_in", "poke"):
+            for tgt in [st["res"]] + partners[:1]:
+                q = {"world": p["world"], "id": "probe-%d" % len(probes), "seed": p["seed"],
+                     "steps": p["steps"][:idx + 1] + [mk_mut(p["world"], mut, tgt)]}
+                probes.append(q)
+    if probes:
+        rc_, res_, out_ = ctx.impl("c13_obs.py", {"seed": ctx.seed, "programs": probes}, timeout=300)
+        for q, r_ in zip(probes, res_ or []):
+            if r_["error"] or len(r_["steps"]) != len(q["steps"]):
+                continue
+            byid[q["id"]] = r_
+            programs.append(q)
+            last = r_["steps"][-1]
+            if last["value_changed"]:
+                violations.append((q, len(q["steps"]) - 1, [v["name"] for v in last["value_changed"]], last))
     # ------------------------------------------------------------------ report
     world_src, dense_src = impl_sources()
     reported = set()
@@ -572,7 +639,8 @@ def run(ctx):
         repro = make_repro(p["world"], seed, steps, [names[0]], world_src, dense_src)
         ctx.violation(key, "frame property on the real code (%s); C13_frame's hypothesis 'every step obeys its signature' fails for %s in Model/Heap.v" % (what, st["model"]),
                       {"program": [s["code"] for s in steps], "changed_objects": ob["value_changed"], "step": st["code"],
-                       "sig_ok_failing_rows": [r["fn"] for r in bad_rows]},
+                       "sig_ok_failing_rows": [r["fn"] for r in bad_rows],
+                       "operations_with_inadmissible_or_disagreeing_generated_rows": [b["methods"] for b in bad_ops]},
                       found=True, repro=repro)
     # only the first step of a program that leaves its signature is reported (later steps act on an already
     # aliased / damaged state), and not at all when the program already produced a value change before it
@@ -606,16 +674,19 @@ def run(ctx):
     if not model_ok:
         ctx.violation("model-eval", "Coq evaluation of within_sig failed (Model/Heap.v does not build or a cases file failed)",
                       {"log": (mlog or "")[-1500:]}, found=False)
-    if tab is None or not ok_build or not ok_props:
+    if tab is None or oprows is None or not ok_build or not ok_props:
         broken = []
         if tab is None:
             broken.append("translator tx/evolveentry.py")
+        if oprows is None:
+            broken.append("translator tx/opentries.py")
         if not ok_build or not ok_props:
             broken.append("theorem(s) of Props/C13.v: " + (", ".join(o["name"] for o in ctx.obligations if not o["ok"]) or "build"))
         if not violations:
             ctx.violation("evolve-entry-table", "; ".join(broken),
                           {"coq_log_tail": (log or "")[-1800:],
-                           "sig_ok_failing_rows": [{"fn": r["fn"], "first": r["first"], "ret": r["ret"], "writes": r["writes"]} for r in bad_rows]},
+                           "sig_ok_failing_rows": [{"fn": r["fn"], "first": r["first"], "ret": r["ret"], "writes": r["writes"]} for r in bad_rows],
+                           "operations_with_inadmissible_or_disagreeing_generated_rows": bad_ops},
                           found=False)
     # ------------------------------------------------------------------ coverage
     pairs = sorted(cover)
